@@ -122,6 +122,36 @@ def python_side(ctx, m, proto, vals, data, tag, ex):
         judge_doc(ctx, m, proto, vals, r4, "py-fortran", tag + " bin->ndjson (python, Fortran-ordered arrays)", exp, data)
 
 
+def run_time_representations(ctx):
+    """the documents the generated Python writes for dates / times / datetimes given as datetime.datetime (naive = local time, and UTC-aware) and
+    datetime.time objects are the documented strings, the same as for the values its own reader returns"""
+    dt, tm, da, st = P("datetime"), P("time"), P("date"), P("string")
+    rec = Rec("TrRec", [("d", da), ("t", tm), ("dt", dt), ("odt", Opt(dt)), ("vdt", V(dt)), ("m", M(st, dt)), ("u", U((("t", tm), ("dt", dt), ("d", da)), False, True))])
+    pkg = Pkg("TimeRepr", [rec, Proto("TrP", [("first", dt), ("moments", S(dt)), ("times", S(tm)), ("days", S(da)), ("recs", S(N("TrRec"))), ("last", Opt(dt))])])
+    m = rt.prepare_model(ctx, "timerepr", pkg, ["plain"])
+    if m is None:
+        raise Inconclusive("time-representation model did not build")
+    c = m.codec
+    proto = pkg.find("TrP")
+    S_, MS, US = 10 ** 9, 10 ** 6, 10 ** 3
+    moments = [0, US, -US, -999999 * US, -S_ - 500 * MS, 1500 * MS, 86399 * S_ + 999999 * US, -2208988800 * S_ + 123456 * US, 1700000000 * S_ + 987654 * US, 1700000000 * S_ + 987654321, 1700000000 * S_,
+               4102444800 * S_ + 5 * US, -S_, 1]
+    times = [0, US, 999999 * US, 86399 * S_ + 999999 * US, 12 * 3600 * S_, 3661 * S_ + 1001 * US, 43200 * S_ + 1, 3600 * S_]
+    days = [0, 1, -1, -25567, 19000]
+    for k in range(2):
+        recs = [[days[j % 5], times[j % 8], x, (None if j % 3 == 0 else (0, moments[(j * 5 + k) % len(moments)])), [moments[(j + i) % len(moments)] for i in range(j % 3)],
+                 [("k%d" % i, moments[(j * 3 + i) % len(moments)]) for i in range(j % 2)], [(0, times[j % 8]), (1, x), (2, days[j % 5])][j % 3]] for j, x in enumerate(moments[k::2])]
+        vals = [moments[(3 * k + 2) % len(moments)], moments[k::2], times[k::2], days, recs, (None if k == 0 else (0, moments[-2]))]
+        data = c.encode_stream(proto, m.schema("TrP"), vals)
+        ctx.case(("time-representations", k))
+        for mode in ("copy_to", "altrepr-std"):
+            ep = rt.PyEndpoint(m, mode=mode)
+            r = ep.copy("TrP", "bin", "ndjson", data)
+            ctx.ev(); ctx.count("time-representations." + ep.name)
+            judge_doc(ctx, m, proto, vals, r, ep.name, "dates / times / datetimes set %d written as NDJSON by python (%s)" % (k, mode), {"time_representations": True, "trigger": ""}, data)
+    m.close()
+
+
 def run_model(ctx, key, pkg, nsets, flavors):
     m = rt.prepare_model(ctx, key, pkg, flavors)
     if m is None:
@@ -320,6 +350,7 @@ def run(ctx):
 
     pmap(work, keys, workers=6)
     run_matrix(ctx, quick)
+    run_time_representations(ctx)
     cxx.prune_cache()
 
 
